@@ -362,7 +362,11 @@ class Convention(abc.ABC, Generic[GridKind, Index]):
         :attr:`get_depth_coordinate_for_data_array`
         """
         depth_coordinates = []
+        bounds_names = utils.bounds_variable_names(self.dataset)
         for name in self.dataset.variables.keys():
+            if name in bounds_names:
+                # The bounds of a depth coordinate can carry the same attributes
+                continue
             data_array = self.dataset[name]
 
             if not (
